@@ -161,6 +161,9 @@ impl Driver for C03 {
             let stratum = [Stratum::Mixed, Stratum::Affine, Stratum::Piecewise, Stratum::Logic, Stratum::TightenedDiscrete][rng.gen_range(0..5)];
             let mut m = gen_model(&mut rng, stratum);
             bound_domains(&mut m, &mut rng);
+            if rng.gen_bool(0.1) {
+                let _ = crate::props::c07::add_inexact_row(&mut m, &mut rng);
+            }
             // simple names only: compound names (x_0) go through the indexing machinery (C06)
             m.names = (0..m.n()).map(|i| ["x", "y", "z", "w"][i].to_string()).collect();
             for c in m.cons.iter_mut() {
